@@ -24,7 +24,7 @@
          chk_C04 ifs h wakes (map obs_of (run_history ifs h)) = true ). *)
 From Coq Require Import List NArith Bool.
 From Mdns Require Import Res Bytes Rec Wire Txt Cache Browser C03Spec BrowserSpec BrowserKnown CacheProofs
-  CacheInvProofs BrowserStepProofs SpecTrackProofs BrowserProofs C05SafetyProofs C04StepProofs C04ScheduleProofs C04PendingProofs AouCasesProofs C04OrderProofs BrowserExamples.
+  CacheInvProofs BrowserStepProofs SpecTrackProofs BrowserProofs C05SafetyProofs C04StepProofs C04ScheduleProofs C04PendingProofs AouCasesProofs C04OrderProofs C05AgainProofs C05TimelyProofs C04CompleteProofs BrowserExamples.
 Import ListNotations.
 Open Scope N_scope.
 
@@ -225,6 +225,21 @@ Theorem C04_pending_followup_within_500 : forall ifs h i,
               /\ last_now h < t /\ t <= last_now h + 500 /\ 1 <= n /\ n <= 3.
 Proof. exact pending_followup_within_500. Qed.
 
+(* Round 8, the bridge to the checker's follow-up clause: a try asks EXACTLY the question
+   chk_C04 expects (expected_followup, judged on the same cache) - so with the two theorems above an
+   instance that is pending is asked for, with the expected question, within 500 ms, at most
+   three times.  _partial: what is still missing for "viol_C04 has no F04_followup / F04_many failure
+   over histories" is the checker-side correspondence (obligation (inst, due, try n) <-> queued entry
+   (due, RResolve inst n) for non-stale obligations; a queued entry due not later for stale ones;
+   pending => open episode or up), see PARTIAL in tools/props/c04.py. *)
+Theorem C04_try_asks_expected : forall s now inst n,
+  snd (exec_resolve s now inst n)
+  = match expected_followup (s_cache s) inst with
+    | Some (nm, ty) => if ty =? TY_ANY then [OQuery [(nm, TY_ANY)]] else [OQuery [(nm, TY_A); (nm, TY_AAAA)]]
+    | None => []
+    end.
+Proof. exact try_asks_expected. Qed.
+
 Example C04_pending_example :
   mem n_inst (s_pending (model_after ex_ifs init_st (firstn 3 ex_follow))) = true
   /\ mem n_inst (s_pending (model_after ex_ifs init_st ex_follow)) = false.
@@ -301,6 +316,69 @@ Example C04_resolved_only_after_found_example :
   /\ known_browse_expiring ex_ifs restart_hist = false.
 Proof. exact order_example. Qed.
 
+(* Completeness clause over histories (round 8).  Full statement:
+       forall ifs h wakes, wf_history h = true ->
+         forall f, In f (viol_C04 ifs h wakes (map obs_of (run_history ifs h))) -> is_complete_fail f = false
+   i.e. the checker never reports F04_complete: at the end of an iteration an instance with PTR, SRV
+   and address live (more than a second left) under a browsed name, a record of which was delivered
+   in the iteration (or whose browse was started), is up on that name's channel.  FALSE of the
+   faithful model and the daemon (C04_known_refresh_completes_witness, and the two-SRV-targets
+   witness); proved outside complete_class = safe_class && fresh_channels && not
+   known_refresh_completes, where known_refresh_completes (Model/BrowserKnown.v, evaluated along the
+   model's run) is the class of BOTH C04-last-second-refresh-not-new and
+   C04-browse-over-expiring-ptr's aftermath: some delivery that is NOT reported as a new record (a
+   refresh of a cached record, a refused record, a PTR with TTL <= 1) turns an instance of a browsed
+   name strongly alive - handle_response then has no reason to resolve it.
+   Proved is more than the clause asks: the invariant AU "strongly alive under a browsed name =>
+   up on its channel" holds at the end of EVERY iteration, whether or not a record was delivered.
+   Liveness rises only in add_or_update (C05_liveness_decreases_with_cache, _with_time), a delivery that raises it
+   concerns the instance (C05_other_deliveries_keep_dead); if it is reported as new the instance is in
+   `updated` (hr_turned) and C04_completing_response_resolves_partial gives the ServiceResolved; browse
+   reports every live instance; ServiceRemoved only hits instances that are not strongly alive (the C05
+   safety lemmas); BI: the type recorded in an up entry is the type browsed on its channel, so
+   ups_current keeps it. *)
+Theorem C04_complete_is_up_partial : forall ifs h wakes,
+  wf_history h = true -> complete_class ifs h = true ->
+  forall f, In f (viol_C04 ifs h wakes (map obs_of (run_history ifs h))) -> is_complete_fail f = false.
+Proof. exact complete_is_up. Qed.
+
+(* one iteration from any state: goodC = cache invariant + AU + BI + channel bounds *)
+Theorem C04_iteration_complete_is_up : forall Lf,
+  known_ptr_variant Lf = false -> known_srv_targets Lf = false -> ptr_names_ok Lf = true ->
+  forall now ifs prev s it ups m m',
+  i_now it = now -> goodC Lf now prev s ups m -> incl (prev ++ iter_dlvs ifs it) Lf ->
+  calls_fresh m (i_calls it) = Some m' ->
+  reads_refresh_only ifs s now (deliveries_in_order (i_dgrams it)) = false ->
+  goodC Lf now (prev ++ iter_dlvs ifs it) (fst (iterate ifs s it)) (upsf ups (snd (iterate ifs s it))) m'.
+Proof. exact iterate_complete. Qed.
+
+(* a message in which an instance of a browsed name becomes strongly alive, outside the class, has
+   the instance in `updated` *)
+Theorem C04_turned_alive_is_updated : forall Lf,
+  known_srv_targets Lf = false ->
+  forall now ifx q fu ty ch inst rs L c,
+  Inv L c -> incl (L ++ map (mkDlv now ifx) rs) Lf ->
+  records_refresh_only c now ifx q fu rs = false -> q_get ty q = Some ch ->
+  alive_strong (fst (fst (hr_records c now ifx q fu rs))) now ty inst = true ->
+  alive_strong c now ty inst = false ->
+  In inst (updated_of (fst (fst (hr_records c now ifx q fu rs))) (snd (hr_records c now ifx q fu rs))).
+Proof. exact hr_turned. Qed.
+
+Theorem C04_known_refresh_completes_witness :
+  wf_history lastsec_hist = true /\ safe_class ex_ifs lastsec_hist = true /\ fresh_channels lastsec_hist = true
+  /\ known_refresh_completes ex_ifs lastsec_hist = true
+  /\ existsb is_complete_fail (viol_C04 ex_ifs lastsec_hist (ex_wakes lastsec_hist) (map obs_of (run_history ex_ifs lastsec_hist))) = true.
+Proof. exact refresh_completes_witness. Qed.
+
+Example C04_complete_is_up_example :
+  map (complete_class ex_ifs) [ex_hist; restart_hist; mixedcase_hist; quick_hist; brexp_hist; again_hist]
+  = [true; true; true; true; true; true]
+  /\ map (fun h => existsb (existsb is_resolved_evt) (run_history ex_ifs h))
+         [ex_hist; restart_hist; mixedcase_hist; quick_hist; brexp_hist; again_hist]
+     = [true; true; true; true; true; true]
+  /\ map (complete_class ex_ifs) [lastsec_hist; srvtgt_hist] = [false; false].
+Proof. exact complete_example. Qed.
+
 (* Non-vacuity: histories that pass chk_C04 - PTR only: questions (instance, ANY) exactly in the
    iterations at +500, +1000, +1500; and the announce / update / goodbye history of C03. *)
 Example C04_example_followup :
@@ -354,11 +432,17 @@ Print Assumptions C04_followup_schedule_invariant.
 Print Assumptions C04_followup_schedule_example.
 Print Assumptions C04_pending_has_followup_queued.
 Print Assumptions C04_pending_followup_within_500.
+Print Assumptions C04_try_asks_expected.
 Print Assumptions C04_pending_example.
 Print Assumptions C04_resolved_only_after_found_partial.
 Print Assumptions C04_iteration_resolved_only_after_found.
 Print Assumptions C04_known_browse_expiring_witness.
 Print Assumptions C04_resolved_only_after_found_example.
+Print Assumptions C04_complete_is_up_partial.
+Print Assumptions C04_iteration_complete_is_up.
+Print Assumptions C04_turned_alive_is_updated.
+Print Assumptions C04_known_refresh_completes_witness.
+Print Assumptions C04_complete_is_up_example.
 Print Assumptions C04_known_dotted_witness.
 Print Assumptions C04_known_last_second_refresh_witness.
 Print Assumptions C04_found_and_resolved_refuted.
